@@ -4,8 +4,9 @@ import math
 
 from .util import MODEL_NAMES, KIND
 
-REGIMES = ["typical", "wide", "mismatch", "tiny_sigma", "huge_sigma", "corners", "identical", "equal_size", "round_numbers"]
-GAMMA_NAMES = ["default", "default", "default", "one", "inv_k", "three", "dep", "dep"]
+REGIMES = ["typical", "wide", "mismatch", "tiny_sigma", "huge_sigma", "corners", "identical", "equal_size", "round_numbers", "coincidences"]
+GAMMA_NAMES = ["default", "default", "default", "default", "one", "inv_k", "three", "dep", "dep", "zero", "int_one", "int_zero",
+               "int_k_minus_rank"]
 
 
 def gen_cfg(rng, scale=None, gammas=GAMMA_NAMES, kappas=(1e-6, 1e-4, 1e-4, 1e-4, 1e-3, 1e-2), tm_safe=False):
@@ -83,8 +84,9 @@ def _player(rng, regime, beta):
     return mu, s
 
 
-def gen_teams(rng, beta, kmin=2, kmax=8, pmax=8, regime=None):
-    """[[ [mu, sigma, name], ...], ...] inside the stated domain; returns (teams, regime)."""
+def gen_teams(rng, beta, kmin=2, kmax=8, pmax=8, regime=None, default_rating=None):
+    """[[ [mu, sigma, name], ...], ...] inside the stated domain; returns (teams, regime).
+    default_rating: the model's own (mu, sigma) - what model.rating() gives a newcomer - used exactly by some regimes"""
     regime = regime or rng.choice(REGIMES)
     k = rng.choice([2, 2, 3, 3, 4, 4, 5, 6, 7, 8])
     k = max(kmin, min(kmax, k))
@@ -101,6 +103,28 @@ def gen_teams(rng, beta, kmin=2, kmax=8, pmax=8, regime=None):
         n = rng.choice([1, 1, 2, 3])
         proto = [list(_player(rng, "typical", beta)) for _ in range(n)]
         teams = [[list(p) for p in proto] for _ in range(k)]
+    elif regime == "coincidences":
+        n = rng.choice([1, 1, 2, 3])
+        proto = [list(_player(rng, "typical", beta)) for _ in range(n)]
+        v = rng.random()
+        if v < 0.4:
+            # every PLAYER of the game holds exactly the same rating - newcomers at the model's default, or one imported
+            # round value for everybody - in teams of the same or of DIFFERENT sizes (2v1, 1v3, 2v2v1)
+            one = list(default_rating) if (default_rating is not None and rng.random() < 0.6) else list(proto[0])
+            sizes = [n] * k if rng.random() < 0.4 else [rng.choice([1, 2, 3, rng.randint(1, pmax)]) for _ in range(k)]
+            teams = [[list(one) for _ in range(max(1, min(sz, pmax)))] for sz in sizes]
+        elif v < 0.7:
+            # level team-mates: inside each team everybody holds the same rating, the teams differ
+            teams = []
+            for i in range(k):
+                one = list(default_rating) if (default_rating is not None and i == 0) else list(_player(rng, "typical", beta))
+                teams.append([list(one) for _ in range(max(1, min(pmax, rng.choice([2, 2, 3, rng.randint(2, max(2, pmax))]))))])
+        elif default_rating is not None:
+            # newcomers (exactly the model's default) mixed with rated players
+            teams = [[(list(default_rating) if rng.random() < 0.6 else list(_player(rng, "typical", beta)))
+                      for _ in range(min(pmax, rng.choice([1, 2, 3])))] for _ in range(k)]
+        else:
+            teams = [[list(p) for p in proto] for _ in range(k)]
     elif regime == "round_numbers":
         # the values people type and databases store: exact integers and simple fractions of the unit, zero, the defaults,
         # the same value for several players - where a fast path keyed on an exact value (sigma == 1, mu == 0, a default)
@@ -113,7 +137,8 @@ def gen_teams(rng, beta, kmin=2, kmax=8, pmax=8, regime=None):
             t = []
             for j in range(n):
                 if rng.random() < 0.25:
-                    t.append([25.0 * unit, 25.0 / 3.0 * unit])  # exactly the model's default rating
+                    # exactly the model's default rating
+                    t.append(list(default_rating) if default_rating is not None else [25.0 * unit, 25.0 / 3.0 * unit])
                 else:
                     m_, s_ = rng.choice(mus), rng.choice(sgs)
                     if unit == 1.0:
@@ -130,7 +155,9 @@ def gen_teams(rng, beta, kmin=2, kmax=8, pmax=8, regime=None):
             else:
                 tot = sum(p[0] for p in teams[a])
                 n = len(teams[a])
-                teams[b_] = [[tot / n, teams[a][j][1]] for j in range(n)]
+                # ... and, half the time, another total variance (level on mu only)
+                f_ = rng.choice([1.0, 0.5, 2.0])
+                teams[b_] = [[tot / n, min(max(teams[a][j][1] * f_, 1e-4 * beta), 10 * beta)] for j in range(n)]
     elif regime == "equal_size":
         n = rng.choice([1, 1, 2, 3, rng.randint(1, pmax)])
         sub = rng.choice(["typical", "wide", "mismatch"])
@@ -423,7 +450,8 @@ def outcome_kwargs(rng, levels, style=None, as_=None):
 def gen_case(rng, model=None, regime=None, kmax=8, pmax=8, cfg=None, int_only=False, percall=True, kmin=2):
     model = model or rng.choice(MODEL_NAMES)
     cfg = cfg or gen_cfg(rng)
-    teams, regime = gen_teams(rng, cfg["beta"], kmin=kmin, kmax=kmax, pmax=pmax, regime=regime)
+    teams, regime = gen_teams(rng, cfg["beta"], kmin=kmin, kmax=kmax, pmax=pmax, regime=regime,
+                              default_rating=(cfg["mu"], cfg["sigma"]))
     lv = weak_order(rng, len(teams))
     sel, vals, style = outcome_kwargs(rng, lv, style=("int" if int_only else None))
     call = {}
@@ -440,6 +468,8 @@ def gen_case(rng, model=None, regime=None, kmax=8, pmax=8, cfg=None, int_only=Fa
         case["ids"] = "shared"
     if rng.random() < 0.05:
         case["names"] = rng.choice(["same", "none", "same"])  # every player called "bob" / nobody named
+    if rng.random() < 0.06:
+        case["positional"] = True  # rate(teams, ranks, scores, tau, limit_sigma) called with positional arguments
     if rng.random() < 0.06:
         from .util import FLAVOURS
 
